@@ -197,9 +197,11 @@ def run_case(case):
             out.probe('recovery_with_stale_part_file')
             if fs0.lookup(part) == fs0.lookup(dest):
                 out.probe('recovery_with_part_hardlinked_to_dest')
-        stale_part = fs0.lookup(part) is not None and not case.get('overwrite_part', False)
+        stale_part = fs0.lexists(part) and not case.get('overwrite_part', False)
+        prior_dest_exists = fs0.lexists(dest)
     else:
-        old = bytes.fromhex(case['dest_initial']['data']) if case.get('dest_initial') else None
+        di = case.get('dest_initial')
+        old = bytes.fromhex(di['data']) if (di and di.get('data') is not None) else None
         stale_part = False
     if prior and case.get('reuse'):
         case = dict(case)
@@ -213,7 +215,11 @@ def run_case(case):
         out.probe('saver_instance_reused')
     new = S.new_content(case)
     env_fail = bool(case.get('env')) and not case.get('overwrite', True)
-    refused = (old is not None and not case.get('overwrite', True)) or stale_part
+    if prior:
+        dest_exists = prior_dest_exists
+    else:
+        dest_exists = (old is not None) or bool(case.get('dest_initial'))   # a dangling symlink exists too
+    refused = (dest_exists and not case.get('overwrite', True)) or stale_part
 
     base = S.run_save(case, simfs.Plan(), log, fs=start_fs())
     if env_fail and not refused and isinstance(base.exc, OSError):
@@ -235,6 +241,9 @@ def run_case(case):
                      % (_fmt(got), _fmt(new)), phase='fault-free')
         elif base.fs.lookup(part) is not None:
             out.fail('normal-exit-part-left', N, 'after a normal exit the part file still exists', phase='fault-free')
+    di0 = case.get('dest_initial') if not prior else None
+    if di0 and di0.get('symlink'):
+        out.probe('destination_is_symlink')
     if out.violation is None:
         _check_order(base, dest, new, out, N)
     if out.violation is None and not refused and base.sim.binding_changes.get(dest, 0) > 1:
